@@ -15,6 +15,7 @@ import (
 	"fmt"
 	"os"
 	"reflect"
+	"runtime/debug"
 	"strings"
 	"time"
 
@@ -288,6 +289,10 @@ func readArgs(p Param, v reflect.Value, out *[]Arg) {
 // ---------- producing results ----------
 
 func mkValue(t reflect.Type, p *Prov) reflect.Value {
+	if t.Kind() == reflect.Interface {
+		// a function declared to return an interface type: box a T15
+		return mkValue(palette[numStructTypes-1], p).Convert(t)
+	}
 	v := reflect.New(t).Elem()
 	v.Field(0).Set(reflect.ValueOf(Base{P: p}))
 	return v
@@ -473,12 +478,31 @@ func verdictOf(err error) Verdict {
 		IsCycle:  dig.IsCycleDetected(err),
 		AsDig:    errors.As(rc, &de),
 		CanViz:   dig.CanVisualizeError(err),
-		RootSame: rc == last || reflect.DeepEqual(rc, last),
+		RootSame: sameErr(rc, last),
 	}
 	if ue, ok := rc.(*UserErr); ok {
 		fl.IsUser = errors.Is(err, ue)
 	}
-	return Verdict{V: "err", Chain: names, Root: rootOf(last), Flags: fl}
+	msg := err.Error()
+	if len(msg) > 300 {
+		msg = msg[:300]
+	}
+	return Verdict{V: "err", Chain: names, Root: rootOf(last), Flags: fl, Msg: msg}
+}
+
+// sameErr compares two errors without panicking on uncomparable dynamic types.
+func sameErr(a, b error) bool {
+	if a == nil || b == nil {
+		return a == nil && b == nil
+	}
+	ta, tb := reflect.TypeOf(a), reflect.TypeOf(b)
+	if ta != tb {
+		return false
+	}
+	if ta.Comparable() {
+		return a == b
+	}
+	return reflect.DeepEqual(a, b)
 }
 
 // guard runs f and converts a panic into a verdict.
@@ -535,6 +559,9 @@ var badValues = map[string]interface{}{
 }
 
 func main() {
+	// a runaway recursion inside dig must end the process quickly; the
+	// driver reports it as `diverged`
+	debug.SetMaxStack(48 << 20)
 	if len(os.Args) < 3 {
 		fmt.Fprintln(os.Stderr, "usage: harness cases|graphs <file>")
 		os.Exit(2)
